@@ -340,6 +340,8 @@ def instances(tier):
         ('harness.c08', 'h_maxvol', {'n': 3, 'r': 2, 'perm': [1, 2, 0], 'k': 2}),
         ('harness.c08', 'h_maxvol_rect', {'n': 3, 'r': 1, 'perm': [0, 1, 2], 'dr_min': 1, 'dr_max': 2, 'k0': 1}),
         ('harness.c07', 'h_sweeps', {'d': 2, 'n': 2, 'r': 1, 'I': [[0, 0], [1, 1]], 'weighted': True, 'nswp': 1}),
+        ('harness.c07', 'h_adaptive', {'n': 2, 'r0': 2, 'r': 2, 'r_add': 0, 'I': None, 'allow_swap': True, 'structured': True}),
+        ('harness.c15', 'h_func_beam', {'n': [2, 2], 'k': 1}),
         ('harness.c05', 'h_exact', {'n': [2, 2], 'rho': 1, 'r0': 1, 'dr': [0, 0], 'nswp': 1, 'choices': 'first'}),
         ('harness.c16', 'h_norm', {'n': [2, 1], 'r': 1}),
         ('harness.c17', 'h_core_roundtrip_q1', {'r1': 1, 'r2': 2}),
@@ -363,7 +365,7 @@ BOUNDS = {
              'layout sweep of the remaining routines on the real code',
     'thorough': 'same',
 }
-OUTSIDE = ('functions not reachable by the templates (getter: numba absent; cross_act, sample_func, optima_func_tt_beam, optima_tt_maxvol, '
+OUTSIDE = ('functions not reachable by the templates (getter: numba absent; cross_act, sample_func, optima_tt_maxvol, '
            'core_qr_rand, ANOVA.sample / save / load); aliasing created inside the real LAPACK/BLAS wrappers other than through '
            'documented overwrite flags')
 ASSUMPTIONS = ['scipy.linalg.lstsq(overwrite_a/b=True) may destroy the passed buffer (documented contract; modelled by poisoning)',
